@@ -217,6 +217,35 @@ theorem final_update_refines (alg : Model.Alg) :
   intro s st hpf hdone M kw hkw
   exact update_final R s st st.bitcnt M kw _ (Streaming.padOk_of_framing F st hpf (by rw [F.hB]; exact hdone) M kw hkw)
 
+/-! ## 6. one object, several messages -/
+
+/-- **call_forgets_the_object.**  `h(M,bitlen)` on an object in ANY state `o` — any chaining value, any padding state
+    (pad flag, bit counter, buffered count: after earlier calls, refused calls, streaming updates left dangling, finished
+    streaming digests) — returns what the one-shot call on a new object returns, and leaves the object in the state a
+    new object would be left in: `__call__` starts with `initstate()`, which rebuilds `H` and the padding object. -/
+theorem call_forgets_the_object (alg : Model.Alg) (c : HashCore) (hc : alg.new = .ok c) (o : HashObj)
+    (M : List Nat) (L : Option Nat) :
+    (c.call o M L).2 = Model.hash alg M L ∧ c.call o M L = c.call c.initstate M L := by
+  refine ⟨?_, rfl⟩
+  simp only [Model.hash, hc, HashCore.hash, HashCore.call]
+  rfl
+
+/-- **second_call_refines** (the statement the `hashcalls` lines of the correspondence stream echo): on one object of any
+    of the ten algorithms, after a first call `h(M1,L1)` (accepted or refused — `L1` is unconstrained) from any state,
+    or after a streaming `update(M1,L1,padding)` left as it is, the call `h(M2,L2)` with 0 < L2 ≤ 8|M2| returns the
+    standard's digest of the first L2 bits of M2 alone. -/
+theorem second_call_refines (alg : Model.Alg) (c : HashCore) (hc : alg.new = .ok c) (o : HashObj)
+    (M1 : List Nat) (L1 : Option Nat) (padding : Bool) (M2 : List Spec.Byte) (L2 : Nat) (h0 : 0 < L2) (hL : L2 ≤ 8 * M2.length) :
+    (c.call (c.call o M1 L1).1 (toNatBytes M2) (some L2)).2 = .ok (toNatBytes (Spec.hash (toSpec alg) (Spec.takeBits L2 M2))) ∧
+    (c.call (c.update o M1 L1 padding).1 (toNatBytes M2) (some L2)).2 = .ok (toNatBytes (Spec.hash (toSpec alg) (Spec.takeBits L2 M2))) :=
+  ⟨((call_forgets_the_object alg c hc _ _ _).1).trans (hash_refines alg M2 L2 h0 hL),
+   ((call_forgets_the_object alg c hc _ _ _).1).trans (hash_refines alg M2 L2 h0 hL)⟩
+
+/-- …and with the bit length of the second call omitted -/
+theorem second_call_refines_omitted (alg : Model.Alg) (c : HashCore) (hc : alg.new = .ok c) (o : HashObj) (M2 : List Spec.Byte) :
+    (c.call o (toNatBytes M2) none).2 = .ok (toNatBytes (Spec.hash (toSpec alg) (Spec.bytesToBits M2))) :=
+  ((call_forgets_the_object alg c hc _ _ _).1).trans (hash_refines_omitted alg M2)
+
 /-! non-vacuity: the hypotheses are inhabited by non-trivial instances, and the specifications are not degenerate
     (FIPS 180-4 / RFC 1321 test vector "abc", evaluated in the kernel) -/
 example : ∃ (M : List Spec.Byte) (L : Nat), 0 < L ∧ L ≤ 8 * M.length ∧ L % 8 ≠ 0 := ⟨[0xa5#8, 0x80#8], 9, by decide⟩
@@ -226,5 +255,18 @@ example : toNatBytes (Spec.hash .sha256 (Spec.bytesToBits [0x61#8, 0x62#8, 0x63#
      0xb0, 0x03, 0x61, 0xa3, 0x96, 0x17, 0x7a, 0x9c, 0xb4, 0x10, 0xff, 0x61, 0xf2, 0x00, 0x15, 0xad] := by decide +kernel
 example : toNatBytes (Spec.hash .md5 (Spec.bytesToBits [0x61#8, 0x62#8, 0x63#8])) =
     [0x90, 0x01, 0x50, 0x98, 0x3c, 0xd2, 0x4f, 0xb0, 0xd6, 0x96, 0x3f, 0x7d, 0x28, 0xe1, 0x7f, 0x72] := by decide +kernel
+/-- the object states `call_forgets_the_object` quantifies over include non-initial ones that really occur: after
+    `MD5()(b"abc")` the object is padded and its counter stands at 24 bits (the state a padding object that is not rebuilt
+    would carry into the next message), and every algorithm has a constructor result to apply the theorem to -/
+example : (Md.md5Core.call Md.md5Core.initstate [0x61, 0x62, 0x63] none).1.pad = { padflag := true, bitcnt := 24, padcnt := 0 } ∧
+    (Md.md5Core.call Md.md5Core.initstate [0x61, 0x62, 0x63] none).1 ≠ Md.md5Core.initstate := by
+  have h : (Md.md5Core.call Md.md5Core.initstate [0x61, 0x62, 0x63] none).1.pad = { padflag := true, bitcnt := 24, padcnt := 0 } := by
+    decide +kernel
+  refine ⟨h, fun e => ?_⟩
+  rw [e] at h
+  exact absurd h (by decide)
+example : ∀ alg : Model.Alg, ∃ c, alg.new = .ok c := fun alg => by
+  obtain ⟨c, hc, _⟩ := StreamingAlgs.alg_cases alg
+  exact ⟨c, hc⟩
 
 end Proofs.C01
